@@ -14,9 +14,9 @@ from vlib.common import REPO, BUILD, VERIF, env_offline, sha_tree, Inconclusive,
 CRATE = 'verif_endpoints'
 
 
-def endpoints_program():
+def endpoints_program(extra=()):
     """Program with conjure_http, conjure_object and the harness crate (its MIR regenerated when /repo or the crate changes)"""
-    prog = program(['conjure_http', 'conjure_object'])
+    prog = program(['conjure_http', 'conjure_object'] + list(extra))
     cdir = harness_crate('gen-crates/endpoints')
     h = sha_tree([cdir, os.path.join(REPO, 'conjure-http'), os.path.join(REPO, 'conjure-macros'), os.path.join(REPO, 'conjure-object'),
                   os.path.join(REPO, 'conjure-error'), os.path.join(REPO, 'conjure-serde')])[:16]
@@ -70,8 +70,23 @@ def M_percent_decode_str(it, ctx, args, st):
     yield st, Agg('percent_encoding::PercentDecode', (sval(st, args[0]),))
 
 
+def encoded_input(st, s):
+    """if s is the very output of a recorded utf8_percent_encode call whose set escapes '%' and '/': the input of that call
+    (library contract percent_decode(utf8_percent_encode(x, set)) = x when '%' is in the set)"""
+    for inp, mask, enc in st.aux.get('pctenc', ()):
+        if enc is s:
+            cm = concrete(mask)
+            if cm is not None and (cm >> ord('%')) & 1 and (cm >> ord('/')) & 1:
+                return inp
+    return None
+
+
 def M_decode_utf8_lossy(it, ctx, args, st):
     pd = st.deref_all(args[0]) if isinstance(args[0], Ptr) else args[0]
+    known = encoded_input(st, pd.fields[0])
+    if known is not None:
+        yield st, known
+        return
     yield st, percent_decode(pd.fields[0])           # Cow<str> as an owned bounded string (inputs are ASCII: stated)
 
 
@@ -87,6 +102,9 @@ def M_str_split_char(it, ctx, args, st):
     """str::split(char): the harness only passes values that do not contain the separator (single-segment parameters)"""
     s = sval(st, args[0])
     ch = concrete(args[1])
+    if ch == ord('/') and encoded_input(st, s) is not None:
+        yield st, It('list', (args[0],))
+        return
     st.pc.append(z3.And(*[z3.Or(z3.UGE(bv(i), s.len), b != ch) for i, b in enumerate(s.bytes)]))
     yield st, It('list', (args[0],))
 
@@ -133,6 +151,9 @@ def M_flatten(it, ctx, args, st):
         raise Unsupported('flatten of ' + src.fields[0])
     o = src.fields[1]
     p = it.payload(o, 'Some')
+    if p is None:
+        yield st, Agg('It', ('qvals', (bv(0), ()), None, 0, None))
+        return
     qv = st.deref_all(p.fields[0])
     n, items = qv.fields
     yield st, Agg('It', ('qvals', (z3.If(o.discr == 1, n, bv(0)), items), None, 0, None))
